@@ -381,6 +381,10 @@ var c06Deviations = []deviation{
 			if open >= len(x)-20 {
 				return "<broken"
 			}
+			if !strings.Contains(x, "</") {
+				// a root without content (self-closed): open it and never close it
+				return strings.Replace(x, "/>", ">", 1)
+			}
 			switch rng.Intn(6) {
 			case 0: // truncate inside the root
 				cut := open + 12 + rng.Intn(len(x)-open-13)
